@@ -126,6 +126,25 @@ func d1(w *World, r *Report, x *ExecCtx, fns []*ssa.Function) {
 			}
 		}
 	}
+	// recycled objects: what sync.Pool hands out is a fresh object or one used before —
+	// which of the two depends on the garbage collector and the scheduler of this
+	// node. It is harmless only if the taker overwrites every field before anything
+	// else sees the object.
+	for _, fn := range fns {
+		for _, c := range CallsIn(fn) {
+			f := c.Common().StaticCallee()
+			if f == nil || f.Name() != "Get" || w.FuncPkgPath(f) != "sync" || f.Signature.Recv() == nil || !strings.HasSuffix(typeStr(f.Signature.Recv().Type()), "Pool") {
+				continue
+			}
+			key := w.FName(fn) + ":sync.Pool.Get"
+			ok, why := w.pooledObjectReinitialised(c)
+			if ok {
+				r.OK("D-1", key, "the recycled object is overwritten as a whole before use: "+why, site(w, c))
+			} else {
+				r.Violate("D-1", key, "an object taken from a sync.Pool (fresh or recycled, depending on this node's GC and scheduling) is used on a consensus path without every field being overwritten first: "+why, map[string]interface{}{"path": x.reachAll.Path(fn)}, site(w, c))
+			}
+		}
+	}
 	// positive control: the matcher must find the known uses outside the consensus path
 	ctl := 0
 	for _, fn := range w.ModuleFuncs() {
@@ -713,4 +732,65 @@ func (w *World) exceptedThroughCaller(fn *ssa.Function, api string) (string, str
 		}
 	}
 	return "", ""
+}
+
+// pooledObjectReinitialised: the value obtained by the sync.Pool.Get call c is
+// asserted to *T (T a struct) and, in the same function, either stored as a whole
+// or every field of T is stored through that pointer in the block of the assertion
+// (before any call receives the pointer).
+func (w *World) pooledObjectReinitialised(c ssa.CallInstruction) (bool, string) {
+	cv := callValue(c)
+	if cv == nil || cv.Referrers() == nil {
+		return false, "the result is not used as a typed object"
+	}
+	var obj ssa.Value
+	for _, ref := range *cv.Referrers() {
+		if ta, ok := ref.(*ssa.TypeAssert); ok {
+			obj = ta
+			if ta.CommaOk {
+				for _, r2 := range *ta.Referrers() {
+					if ex, isE := r2.(*ssa.Extract); isE && ex.Index == 0 {
+						obj = ex
+					}
+				}
+			}
+		}
+	}
+	if obj == nil {
+		return false, "the result is not asserted to a concrete type here"
+	}
+	st, isS := deref(obj.Type()).Underlying().(*types.Struct)
+	if !isS {
+		return false, "the pooled object is not a struct"
+	}
+	set := map[int]bool{}
+	escaped := false
+	blk := obj.(ssa.Instruction).Block()
+	for _, in := range blk.Instrs {
+		switch y := in.(type) {
+		case *ssa.Store:
+			if y.Addr == obj {
+				return true, "*obj = …"
+			}
+			if fa, ok := y.Addr.(*ssa.FieldAddr); ok && fa.X == obj && !escaped {
+				set[fa.Field] = true
+			}
+		case ssa.CallInstruction:
+			for _, a := range y.Common().Args {
+				if a == obj {
+					escaped = true
+				}
+			}
+		}
+	}
+	var missing []string
+	for i := 0; i < st.NumFields(); i++ {
+		if !set[i] {
+			missing = append(missing, st.Field(i).Name())
+		}
+	}
+	if len(missing) == 0 {
+		return true, fmt.Sprintf("all %d fields assigned", st.NumFields())
+	}
+	return false, "fields keeping what an earlier user left: " + strings.Join(missing, ", ")
 }
